@@ -1263,6 +1263,18 @@ class GenBankSim(Base):
         if st == "exc":
             self.fail("typed:get_annotation-raised", got=exc_name(back), msg=str(back)[:300])
         self.compare_annotation(back, annot, op["features"], "annotation")
+        # include_only restricts to the given keys and changes nothing else
+        keys = sorted({f["key"] for f in op["features"]})
+        if keys:
+            only = keys[:1]
+            st, part = call(gb.get_annotation, new, only)
+            if st == "exc":
+                self.fail("typed:get_annotation-raised", got=exc_name(part), msg=str(part)[:300], include_only=only)
+            from biotite.sequence import Annotation
+
+            exp_part = Annotation([f for f in annot if f.key in only])
+            if part != exp_part:
+                self.fail("typed:annotation-changed:include-only", where="include_only", problem="include-only", include_only=only)
         self.file = new
         self.readbacks += 1
         self.res.stats["probe:typed-roundtrip"] += 1
